@@ -183,7 +183,8 @@ class JsonDocument(HierDictDocument):
                     in_string = in_string.decode(in_string_encoding)
             ctx.in_document = json.loads(in_string, **self.kwargs)
 
-        except JSONDecodeError as e:
+        except (JSONDecodeError, UnicodeError, LookupError) as e:
+            # the latter two: wrong or unknown charset
             raise Fault('Client.JsonDecodeError', repr(e))
 
     def create_out_string(self, ctx, out_string_encoding='utf8'):
